@@ -1105,6 +1105,17 @@ fn defercycle_child(dir: &Path, cfg: &Cfg, out: &Out) -> i32 {
 	drop(r1);
 	drop(r2);
 	out.line("begin quiet");
+	// the diagnosis behind the known finding: count how often process_commits defers a commit
+	// during the quiet period (yield point of the c11 hook)
+	let deferrals = Arc::new(std::sync::atomic::AtomicU64::new(0));
+	{
+		let d = deferrals.clone();
+		parity_db::verif::set_yield_hook(Some(Arc::new(move |name: &'static str| {
+			if name == "process_commits.deferred" {
+				d.fetch_add(1, std::sync::atomic::Ordering::SeqCst);
+			}
+		})));
+	}
 	let t0 = Instant::now();
 	let mut rounds = 0;
 	if background {
@@ -1116,6 +1127,8 @@ fn defercycle_child(dir: &Path, cfg: &Cfg, out: &Out) -> i32 {
 		}
 	}
 	let enacted = db.verif_last_enacted() - base;
+	let n_deferred = deferrals.load(std::sync::atomic::Ordering::SeqCst);
+	parity_db::verif::set_yield_hook(None);
 	out.line(&format!("quiet {} {}", t0.elapsed().as_millis(), enacted));
 	out.line(&format!("STAT defercycle.variant.{} 1", ["single", "zxy", "control"][cfg.variant as usize]));
 	out.line(&format!("STAT defercycle.{} 1", if background { "workers" } else { "stepping" }));
@@ -1123,9 +1136,10 @@ fn defercycle_child(dir: &Path, cfg: &Cfg, out: &Out) -> i32 {
 		let a = db.get_root(0, &ka).map(|r| r.is_some()).unwrap_or(false);
 		let b = db.get_root(0, &kb).map(|r| r.is_some()).unwrap_or(false);
 		let msg = format!(
-			"deferral livelock: {} of {} accepted commits written and enacted {} after the client released and dropped its tree readers and went quiet (variant {}, {}: {}); inserted trees visible A={} B={}; handle abandoned (drop would not return)",
+			"deferral livelock: {} of {} accepted commits written and enacted, {} deferrals, {} after the client released and dropped its tree readers and went quiet (variant {}, {}: {}); inserted trees visible A={} B={}; handle abandoned (drop would not return)",
 			enacted,
 			ncommits,
+			n_deferred,
 			if background { format!("{} ms", t0.elapsed().as_millis()) } else { format!("{} x (process_commits, flush_logs, enact_logs, clean_logs)", rounds) },
 			["single: X=[DereferenceTree T, InsertTree A], Y=[DereferenceTree T, InsertTree B]", "zxy: Z=[Deref T2], X=[Deref T1, Insert A], Y=[Deref T2, Insert B]", "control"][cfg.variant as usize],
 			if background { "background workers" } else { "stepping API" },
@@ -1133,6 +1147,12 @@ fn defercycle_child(dir: &Path, cfg: &Cfg, out: &Out) -> i32 {
 			a,
 			b
 		);
+		if n_deferred < 10 {
+			// a stall that is NOT the deferral cycle: not the known finding
+			out.line(&format!("FAIL defercycle: commits not applied although process_commits deferred only {} time(s): {}", n_deferred, msg.replace("deferral livelock", "stall")));
+			out.line("DONE");
+			std::process::exit(5);
+		}
 		if cfg.variant == 2 {
 			out.line(&format!("FAIL defercycle control: {}", msg));
 			out.line("DONE");
